@@ -26,7 +26,7 @@ HAS = lambda v: (not v["INF"]) and (not v["SLOTTED"])
 
 def check(ctx):
     P = ctx.program
-    iters = (0, 1, 2) if ctx.tier == "thorough" else (0, 1)
+    iters = (0, 1)
     views = family_views(P, "Node")
     c06.transfer_guard(ctx, P, iters)
     block_keeps_server(ctx, P, views, iters)
